@@ -1,6 +1,6 @@
 # -*- coding: utf-8 -*-
 import numpy as np
-from pyg_base._types import is_nan, is_iterable
+from pyg_base._types import is_nan, is_iterable, is_float
 from pyg_base._loop import len0
 from pyg_base._as_primitive import as_primitive
 
@@ -68,12 +68,12 @@ def cmp(x,y):
             return c
         else:
             return cmparr(xv, yv)
-    if is_nan(x):
-        x = np.inf
-    if is_nan(y):
-        y = np.inf
     if is_iterable(x):
         return cmparr(x,y)
+    xnan = is_float(x) and x != x
+    ynan = is_float(y) and y != y
+    if xnan or ynan: # nan ranks above every number (inf included); -inf and inf keep their native places rather than being treated as nan
+        return 0 if xnan and ynan else 1 if xnan else -1
     else:
         return -1 if x<y else 1 if x>y else 0
     
